@@ -344,3 +344,51 @@ def c20_4(ctx, r):
     comps = [n for n in iter_own(sv.node) if isinstance(n, ast.ListComp) and "to_dict" in ast.unparse(n.elt)]
     r.check(bool(comps) and all(not g.ifs for c in comps for g in c.generators), "every event of a name is written (no filter)", key_of(sv, "filter"), sv.loc(),
             "_save_events_summary filters events while writing")
+
+
+@rule(P, "C20.5", "T9", "event writer and reader agree on keys (every attribute written is read back into the same parameter)", min_obligations=7)
+def c20_5(ctx, r):
+    cls = ctx.cls("StructuredLogEvent", "C20.5")
+    init = cls.methods["__init__"]
+    written = set()
+    for n in iter_own(init.node):
+        if isinstance(n, ast.Attribute) and isinstance(n.ctx, ast.Store) and isinstance(n.value, ast.Name) and n.value.id == "self":
+            written.add(n.attr)
+    s = cls.methods["__str__"]
+    r.check("json.dumps(self.__dict__" in ast.unparse(s.node), "an event is written as the JSON of its attribute dict", key_of(s, "writer"), s.loc(), "StructuredLogEvent.__str__ no longer dumps self.__dict__")
+    de = cls.methods["deserialize"]
+    calls = [n for n in iter_own(de.node) if isinstance(n, ast.Call) and isinstance(n.func, ast.Name) and n.func.id == "cls"]
+    if len(calls) != 1:
+        raise AnalysisError("C20.5", "deserialize does not construct cls(...) once")
+    read = {}
+    for k in calls[0].keywords:
+        if k.arg is None:
+            t = ast.unparse(k.value)
+            if t.replace("'", '"') == 'record["data"]':
+                read["data"] = "**"
+            continue
+        v = k.value
+        key = None
+        if isinstance(v, ast.Call) and ast.unparse(v.func) == "record.get" and v.args and isinstance(v.args[0], ast.Constant):
+            key = v.args[0].value
+        elif isinstance(v, ast.Subscript) and ast.unparse(v.value) == "record" and isinstance(v.slice, ast.Constant):
+            key = v.slice.value
+        read[k.arg] = key
+    for attr in sorted(written - {"event_class"}):
+        if attr == "data":
+            r.check(read.get("data") == "**", "the free-form data dict is read back whole (**record['data'])", key_of(de, "data"), de.loc(), "deserialize no longer passes **record['data']: user fields of events are dropped",
+                    "with all fields intact")
+        else:
+            r.check(read.get(attr) == attr, f"attribute '{attr}' is read back from key '{attr}' into parameter '{attr}'", key_of(de, f"reads {attr} from {read.get(attr)}"), de.loc(),
+                    f"deserialize passes {attr}=record[{read.get(attr)!r}]: the consolidated event carries another field's value (or an empty string) in `{attr}`", "with all fields intact")
+    params = set(init.params[1:]) | {"timestamp", "data"}
+    r.check(set(read) <= params, "deserialize passes only constructor parameters", key_of(de, "unknown parameters"), de.loc(), f"deserialize passes {sorted(set(read) - params)}")
+    dv = ctx.fn("events.deserialize_event", "C20.5")
+    txt = ast.unparse(dv.node)
+    r.check("data['event_class'] == 'StructuredLogEvent'" in txt and "StructuredLogEvent.deserialize(data)" in txt and "StructuredErrorLogEvent.deserialize(data)" in txt and "raise" in txt,
+            "the class is chosen by the written event_class; unknown classes raise", key_of(dv, "dispatch"), dv.loc(), "deserialize_event no longer dispatches on event_class / no longer raises on unknown classes")
+    # timestamp given on read is kept (not replaced by now)
+    ok = any(isinstance(n, ast.If) and ast.unparse(n.test).replace("'", '"') == '"timestamp" in kwargs' and "kwargs.pop" in ast.unparse(n.body[0]) for n in iter_own(init.node))
+    r.check(ok, "a timestamp passed in is kept (consolidating again does not re-stamp)", key_of(init, "timestamp"), init.loc(), "StructuredLogEvent.__init__ no longer keeps a passed timestamp", "consolidating again does not change it")
+    le = ctx.fn("loggers.log_event", "C20.5")
+    r.check("logger.info(event)" in ast.unparse(le.node) and "_EVENT_LOGGER_NAME" in ast.unparse(le.node), "log_event writes one line per event to the event logger", key_of(le, "log_event"), le.loc(), "log_event changed")
